@@ -40,21 +40,26 @@ SPEC = dict(
          "implementation's own per-position scores (None only if every qualifying position was consumed; otherwise an "
          "unconsumed qualifying position with its exact score bits, >= every unconsumed qualifying score); any panic "
          "on a configured input. DIFF: consumed prefix, position and score bits against the extracted binary32 "
-         "model. Non-trivial: as C02, distinct also by the prefix list. Theorems (5): C03_max_after_prefix (any k: no "
+         "model. Non-trivial: as C02, distinct also by the prefix list. Theorems (9): C03_max_after_prefix (any k: no "
          "panic, None iff nothing unconsumed qualifies, else an unconsumed qualifying position with its exact score "
          "that dominates every unconsumed non-NaN score; the largest index among the maxima when no hit was buffered), "
          "C03_max_none_iff, C03_max_is_maximum (k = 0), C03_max_block_independent (k = 0: the answer, position "
-         "included, is the same for all block sizes >= 1), C03_check_sound; plus C03_concrete_max: the same for the "
-         "extracted concrete model (every arm) with the order facts proved for Flocq's binary32 comparison and the "
-         "layout hypotheses discharged.",
+         "included, is the same for all block sizes >= 1), C03_check_sound, C03_check_complete (no false alarm); for "
+         "the extracted concrete model (every arm), with the order facts proved for Flocq's binary32 comparison and the "
+         "layout hypotheses discharged: C03_concrete_max, C03_concrete_max_explicit (scores written out), "
+         "C03_concrete_max_c08 (the numeric hypotheses reduced to C08's main clause per position + factor sign bit "
+         "clear, via coq/disc's C08_scale_monotone_f32). The corpus holds boundary cases, the inputs on which the "
+         "deliberate mutations of Scanner::max were caught, and the witnesses of known findings F14b-c03 / F14-c03.",
     trusted_base=c02.COMMON_TRUSTED,
     assumptions=[
         "conservative (property C08), for every bound t the scanner derives (the threshold and the score of each "
         "successive best hit): a valid position whose f32 score is >= t has an 8-bit score >= scale(t). Hypothesis "
         "of all max theorems; proved by group disc in exact arithmetic, false for binary32 on ill-conditioned "
         "matrices (C08_ieee_refuted), re-checked by the correspondence run",
-        "scale_monotone: x >= t implies scale(t) <= scale(x) (hypothesis; group disc proves it in exact arithmetic, "
-        "C08_scale_monotone; not proved for binary32)",
+        "scale_monotone, in the form score i >= thr implies scale(thr) <= scale(score i): hypothesis of the abstract "
+        "theorems; for binary32 it is a theorem whenever the sign bit of the factor is clear (coq/disc "
+        "DiscF32Mono.scale_with_f32_mono, imported by coq/scan/DiscLink.v and used in C03_concrete_max_c08); with the "
+        "sign bit set (factor -0.0, known finding F14b) it is false and max() returns None on qualifying input",
         "the comparisons >=, >, == of the score type form a total preorder on non-NaN values with > and == derived "
         "from >=: hypotheses of the abstract theorems, proved for Flocq's binary32 Bcompare in coq/scan/F32Order.v "
         "and discharged in C03_concrete_max",
